@@ -44,6 +44,8 @@ def _split_top(s, sep=","):
 
 def parse_type(s: str) -> TypeSpec:
     s = s.strip()
+    if s == "nanreal":
+        return TypeSpec("nanreal")
     if s in ("int", "real", "bool", "none", "any", "fn"):
         return TypeSpec(s)
     if s == "str":
@@ -91,6 +93,9 @@ def static_matches(ts: TypeSpec, v, repo=None, exact=False) -> bool:
         return v is NONE or isinstance(v, OptV) or static_matches(ts.elem, v, repo, exact)
     if ts.base == "none":
         return v is NONE
+    if ts.base == "nanreal":
+        from .values import OptV
+        return (isinstance(v, OptV) and v.nanlike) or is_numv(v)
     if v is NONE:
         return False
     if ts.base == "int":
